@@ -1,5 +1,6 @@
 """Talks to the compiled Lean model driver (lean/.lake/build/bin/pymodel) over a pipe."""
 import os
+import select
 import signal
 import subprocess
 
@@ -15,6 +16,23 @@ class Model:
 
     def start(self):
         self.p = subprocess.Popen([self.exe], stdin=subprocess.PIPE, stdout=subprocess.PIPE, bufsize=0)
+        self._buf = b""
+
+    def _readline(self, timeout=1200):
+        """one answer line; a model that stays silent for `timeout` seconds is an infrastructure error, not a hang of the check"""
+        fd = self.p.stdout.fileno()
+        while b"\n" not in self._buf:
+            ready, _, _ = select.select([fd], [], [], timeout)
+            if not ready:
+                raise RuntimeError("pymodel gave no answer within %d s" % timeout)
+            chunk = os.read(fd, 1 << 16)
+            if not chunk:
+                out, self._buf = self._buf, b""
+                return out
+            self._buf += chunk
+        line, _, rest = self._buf.partition(b"\n")
+        self._buf = rest
+        return line + b"\n"
 
     def ask(self, line):
         """interactive: one line in, one line out"""
@@ -23,7 +41,7 @@ class Model:
         if getattr(self, "inflight", None) is not None:
             # an earlier ask() was interrupted between its write and its read (a watchdog alarm fired inside the
             # implementation call that was talking to the target): its answer is still in the pipe — drop it
-            self.p.stdout.readline()
+            self._readline()
             self.resyncs = getattr(self, "resyncs", []) + [self.inflight[:120]]
             self.inflight = None
         self.inflight = line
@@ -34,10 +52,13 @@ class Model:
         try:
             self.p.stdin.write(line.encode() + b"\n")
             self.p.stdin.flush()
-            out = self.p.stdout.readline()
+            out = self._readline()
+            # the exchange is complete: cleared BEFORE the alarm is let through again — a held-back alarm fires inside
+            # the `finally` below, and an `inflight` left set there would make the next ask() wait for an answer that
+            # has already been read (both processes then wait for each other for ever)
+            self.inflight = None
         finally:
             signal.pthread_sigmask(signal.SIG_SETMASK, old)
-        self.inflight = None
         if not out:
             raise RuntimeError("pymodel died on: " + line[:200])
         return out.decode().rstrip("\n")
